@@ -25,6 +25,9 @@ inductive Family | daily | billing | hourly
 
 structure Cfg where
   family : Family
+  /-- which list of checks runs: `check_sufficiency_reporting` (true) or `check_sufficiency_baseline` -/
+  methodReporting : Bool
+  /-- the `is_reporting_data` flag the data class passed; read inside the checks -/
   reporting : Bool
   electric : Bool
   deriving Repr
@@ -76,14 +79,15 @@ def verdict (cfg : Cfg) (rows : List Row) : List DQ :=
   match nDaysTotal rows with
   | none => [.no_data]
   | some nTotal =>
-    let base := !cfg.reporting
-    (if base && !cfg.electric && rows.any (fun r => r.obsNegative) then [DQ.negative_meter_values] else [])
-    ++ (if base && (decide (nTotal > 365) || decide (nTotal < 329)) then [DQ.incorrect_number_of_total_days] else [])
+    let base := !cfg.methodReporting
+    let flag := !cfg.reporting
+    (if base && flag && !cfg.electric && rows.any (fun r => r.obsNegative) then [DQ.negative_meter_values] else [])
+    ++ (if base && ((flag && decide (nTotal > 365)) || decide (nTotal < 329)) then [DQ.incorrect_number_of_total_days] else [])
     ++ (if under90 (validDays (bothValid cfg) rows) nTotal then [DQ.too_many_days_with_missing_data] else [])
-    ++ (if base && under90 (validDays obsValid rows) nTotal then [DQ.too_many_days_with_missing_meter_data] else [])
+    ++ (if base && flag && under90 (validDays obsValid rows) nTotal then [DQ.too_many_days_with_missing_meter_data] else [])
     ++ (if under90 (validDays tempValid rows) nTotal then [DQ.too_many_days_with_missing_temperature_data] else [])
     ++ (if monthlyUnder90 (·.tempPresent) rows then [DQ.missing_monthly_temperature_data] else [])
-    ++ (if cfg.family == .hourly && base && monthlyUnder90 (·.obsPresent) rows then [DQ.missing_monthly_meter_data] else [])
+    ++ (if cfg.family == .hourly && base && flag && monthlyUnder90 (·.obsPresent) rows then [DQ.missing_monthly_meter_data] else [])
     ++ (if cfg.family == .hourly && rows.any (fun r => r.ghi.isSome)
           && monthlyUnder90 (fun r => r.ghi.getD false) rows then [DQ.missing_monthly_ghi_data] else [])
 
